@@ -201,10 +201,21 @@ class Skel:
                 self.walk(a, depth + 1)
         elif h in ("cdef", "cfn"):
             if not _is_std(t[1]):
-                self.items.add("c:%s" % _short(t[1]))
+                adts = self.ctx.F.adts
+                par = t[1].rsplit("::", 1)[0]
+                if t[1] in adts:          # a tuple-struct constructor used as a function (`.map(BlockNumber)`) builds the struct
+                    self.items.add("agg:%s::%s" % (t[1].split("::")[-1], t[1].split("::")[-1]))
+                elif par in adts and adts[par]["kind"] == "enum":
+                    self.items.add("agg:%s::%s" % (par.split("::")[-1], t[1].split("::")[-1]))
+                else:
+                    self.items.add("c:%s" % _short(t[1]))
         elif h == "agg":
             if not (t[1].startswith(("std::option::Option", "std::result::Result", "std::ops::", "std::task::Poll")) or t[1] in ("tuple", "array")):
                 self.items.add("agg:%s::%s" % (t[1].split("::")[-1], t[2]))
+                self._const_operands([x for _, x in t[3]])
+            elif t[1].startswith("std::ops::Range"):
+                # a range value is a selection of part of a sequence (slicing, sub-range iteration): an ingredient with its constant bounds
+                self.items.add("range:%s" % t[1].split("::")[-1])
                 self._const_operands([x for _, x in t[3]])
             elif t[2] in ("Some", "Ok", "Err", "None"):
                 self.items.add("wrap:%s" % t[2]) if t[2] in ("Err",) else None
@@ -435,6 +446,19 @@ def effects_of(ctx, f):
     return sorted(keep), K.open, K.calls
 
 
+def decl_order(ctx, q):
+    """variant names (enum) or field names (struct) of the Self type of `<T as Trait>::m`, in declaration order"""
+    if not q.startswith("<") or " as " not in q:
+        return None
+    a = ctx.F.adts.get(q[1:].split(" as ", 1)[0])
+    if a is None:
+        return None
+    if a["kind"] == "enum":
+        return [v["name"] for v in a["variants"]]
+    vs = a.get("variants") or []
+    return [fl["name"] for fl in vs[0]["fields"]] if vs else None
+
+
 def load():
     return common.load_table("pins.json")
 
@@ -502,6 +526,31 @@ def run(ctx, prop):
             ref["<effects>"] = set(e["effects"])
             is_open = is_open or eo
             calls = calls | ec
+        if "decl_order" in e:
+            # a derived Ord / PartialOrd compares variants by declaration order and fields lexicographically in declaration order:
+            # the order of the type's declaration is part of the meaning of the comparison
+            cur = decl_order(ctx, q)
+            if cur is not None and cur != e["decl_order"] and set(cur) == set(e["decl_order"]):
+                ctx.ob(R, key, False, "%s: the declaration order of the compared type changed (%s -> %s); the derived ordering follows it (%s)" % (_short(q), e["decl_order"], cur, e["why"]), f.loc())
+                continue
+        if e.get("distinct"):
+            # the meaning is injectivity (one value per row, no value shared by two rows), not the values themselves
+            vals = {}
+            bad = None
+            for k, v in sorted(rows.items()):
+                if k == "<effects>":
+                    continue
+                if len(v) != 1:
+                    bad = "[%s] returns %d values" % (k, len(v))
+                    break
+                x = next(iter(v))
+                if x in vals:
+                    bad = "[%s] and [%s] both return %s" % (vals[x], k, x)
+                    break
+                vals[x] = k
+            if bad or len(vals) < len(e["rows"]):
+                ctx.ob(R, key, False, "%s must return a distinct value per case (%s): %s" % (_short(q), e["why"], bad or "%d cases, the reference has %d" % (len(vals), len(e["rows"]))), f.loc())
+                continue
         alts = [ref] + [{k: set(v) for k, v in a.items()} for a in e.get("alt", [])]
         if rows in alts:
             ctx.ob(R, key, True, "%s: %s" % (e["why"], "; ".join("%s -> %s" % (k or "always", " | ".join(sorted(v))) for k, v in sorted(rows.items())))[:400], f.loc())
